@@ -6,6 +6,7 @@ import (
 	"context"
 	"errors"
 	"fmt"
+	"strings"
 	"time"
 
 	"github.com/gotd/td/bin"
@@ -17,10 +18,34 @@ import (
 )
 
 type params struct {
-	MaxRetries int    `json:"max_retries"`
-	Env        string `json:"env"`       // "none" | "ack" | "ack-batched" (msgs_ack listing an id nobody waits for before ours) | "result" | "ack+result"
-	SendFail   bool   `json:"send_fail"` // each transmission may fail as an environment deviation
+	MaxRetries int `json:"max_retries"`
+	// Env: "none" | "ack" | "ack-batched" (msgs_ack listing an id nobody waits for before ours) | "ack-dup" (the same id acknowledged
+	// again: twice in one msgs_ack and once more in a second one, as a server does that received the request twice) | "result" |
+	// "ack+result" | "error" (the answer is an RPC error / bad_msg notification: NotifyError) | "ack+error" |
+	// "ack-both" (Calls=2: one msgs_ack listing both pending requests around an unknown id)
+	Env      string `json:"env"`
+	SendFail bool   `json:"send_fail"` // each transmission may fail as an environment deviation
+	// Calls: number of concurrent invocations on the one engine (0 = 1); ids 4, 5, ..; seqnos 7, 9, ..
+	Calls int `json:"calls,omitempty"`
+	// IntervalMS: the configured retry interval (0 = 1000 ms)
+	IntervalMS int `json:"interval_ms,omitempty"`
 }
+
+func (p params) calls() int {
+	if p.Calls == 0 {
+		return 1
+	}
+	return p.Calls
+}
+
+func (p params) interval() time.Duration {
+	if p.IntervalMS == 0 {
+		return time.Second
+	}
+	return time.Duration(p.IntervalMS) * time.Millisecond
+}
+
+const firstID = 4
 
 type payload struct{ v int32 }
 
@@ -30,62 +55,108 @@ type output struct{ o *sx.Obs }
 
 func (w output) Decode(b *bin.Buffer) error { _, err := b.Int32(); w.o.Log("decoded"); return err }
 
-const interval = time.Second
-
 func body(p params, o *sx.Obs) {
-	sent, done := &sx.Flag{}, &sx.Flag{}
+	n := p.calls()
+	sent, done := map[int64]*sx.Flag{}, map[int64]*sx.Flag{}
+	var ids []int64
+	for k := 0; k < n; k++ {
+		id := int64(firstID + k)
+		ids = append(ids, id)
+		sent[id], done[id] = &sx.Flag{}, &sx.Flag{}
+	}
 	// the "server" answers only a request it received; it gives up when the call is over
-	awaitSend := func() bool {
-		vsched.Cond("await-send", func() bool { return sent.IsSet() || done.IsSet() })
-		return sent.IsSet()
+	awaitSend := func(id int64) bool {
+		vsched.Cond("await-send", func() bool { return sent[id].IsSet() || done[id].IsSet() })
+		return sent[id].IsSet()
 	}
 	eng := rpc.New(func(ctx context.Context, msgID int64, seqNo int32, in bin.Encoder) error {
 		var b bin.Buffer
 		_ = in.Encode(&b)
 		if p.SendFail && vsched.Choose(2) == 1 {
-			o.Log("sendfail step=%d", vsched.Step())
+			o.Log("sendfail id=%d step=%d", msgID, vsched.Step())
 			return errors.New("write failed")
 		}
 		o.Log("send id=%d seq=%d body=%x t=%d step=%d", msgID, seqNo, b.Buf, vsched.Elapsed()/time.Millisecond, vsched.Step())
-		sent.Set()
+		sent[msgID].Set()
 		return nil
-	}, rpc.Options{Clock: sx.Clock{}, RetryInterval: interval, MaxRetries: p.MaxRetries, DropHandler: func(req rpc.Request) error { return nil }})
+	}, rpc.Options{Clock: sx.Clock{}, RetryInterval: p.interval(), MaxRetries: p.MaxRetries, DropHandler: func(req rpc.Request) error { return nil }})
 	var g sx.Group
-	g.Go("call", func() {
-		err := eng.Do(vctx.Background(), rpc.Request{MsgID: 4, SeqNo: 7, Input: payload{77}, Output: output{o}})
-		var rl *rpc.RetryLimitReachedErr
-		switch {
-		case err == nil:
-			o.Log("ret nil")
-		case errors.As(err, &rl):
-			o.Log("ret retrylimit retries=%d", rl.Retries)
-		default:
-			o.Log("ret other")
-		}
-		done.Set()
-	})
-	if p.Env == "ack" || p.Env == "ack+result" || p.Env == "ack-batched" {
-		g.Go("ack", func() {
-			if !awaitSend() {
-				return
+	for k, id := range ids {
+		k, id := k, id
+		g.Go(fmt.Sprintf("call%d", id), func() {
+			err := eng.Do(vctx.Background(), rpc.Request{MsgID: id, SeqNo: int32(7 + 2*k), Input: payload{int32(77 + k)}, Output: output{o}})
+			var rl *rpc.RetryLimitReachedErr
+			switch {
+			case err == nil:
+				o.Log("ret id=%d nil", id)
+			case errors.As(err, &rl):
+				o.Log("ret id=%d retrylimit retries=%d", id, rl.Retries)
+			default:
+				o.Log("ret id=%d other", id)
 			}
-			ids := []int64{4}
-			if p.Env == "ack-batched" {
-				ids = []int64{999, 4, 1000} // servers batch acks; 999/1000 were answered before they were acked
-			}
-			eng.NotifyAcks(ids)
-			o.Log("ackdone step=%d", vsched.Step())
+			done[id].Set()
 		})
 	}
-	if p.Env == "result" || p.Env == "ack+result" {
+	// received logs that the delivery of an acknowledgement / answer for id completed
+	received := func(id int64) { o.Log("recv id=%d step=%d", id, vsched.Step()) }
+	switch p.Env {
+	case "ack", "ack+result", "ack+error", "ack-batched", "ack-dup":
+		g.Go("ack", func() {
+			if !awaitSend(firstID) {
+				return
+			}
+			switch p.Env {
+			case "ack-batched":
+				eng.NotifyAcks([]int64{999, firstID, 1000}) // servers batch acks; 999/1000 were answered before they were acked
+				received(firstID)
+			case "ack-dup":
+				eng.NotifyAcks([]int64{firstID, firstID})
+				received(firstID)
+				eng.NotifyAcks([]int64{firstID})
+			default:
+				eng.NotifyAcks([]int64{firstID})
+				received(firstID)
+			}
+		})
+	case "ack-both":
+		g.Go("ack", func() {
+			for _, id := range ids {
+				if !awaitSend(id) {
+					return
+				}
+			}
+			// one msgs_ack for everything pending, newest first, around an id nobody waits for
+			var l []int64
+			for k := len(ids) - 1; k >= 0; k-- {
+				l = append(l, ids[k])
+				if k == len(ids)-1 {
+					l = append(l, 999)
+				}
+			}
+			eng.NotifyAcks(l)
+			for _, id := range ids {
+				received(id)
+			}
+		})
+	}
+	switch p.Env {
+	case "result", "ack+result":
 		g.Go("result", func() {
-			if !awaitSend() {
+			if !awaitSend(firstID) {
 				return
 			}
 			var b bin.Buffer
 			b.PutInt32(1)
-			_ = eng.NotifyResult(4, &b)
-			o.Log("resultdone step=%d", vsched.Step())
+			_ = eng.NotifyResult(firstID, &b)
+			received(firstID)
+		})
+	case "error", "ack+error":
+		g.Go("error", func() {
+			if !awaitSend(firstID) {
+				return
+			}
+			eng.NotifyError(firstID, errors.New("RPC_ERROR"))
+			received(firstID)
 		})
 	}
 	g.Wait()
@@ -100,48 +171,68 @@ func check(p params, o *sx.Obs, x *vsched.Sched) kit.Result {
 	if x.StepLimit {
 		return kit.Result{Outcome: "step-limit", Trivial: true}
 	}
+	var outs []string
+	for k := 0; k < p.calls(); k++ {
+		r, out := checkCall(p, o, x, firstID+k)
+		if r.Class != "" {
+			return r
+		}
+		outs = append(outs, out)
+	}
+	return kit.OKo(strings.Join(outs, " | "))
+}
+
+// checkCall judges the transmissions of one invocation.
+func checkCall(p params, o *sx.Obs, x *vsched.Sched, id int) (kit.Result, string) {
 	type tx struct {
 		id, seq, t, step int
 		body             string
 	}
+	interval := int(p.interval() / time.Millisecond)
 	var sends []tx
-	recvStep := -1 // step at which the first ack/result delivery completed
+	recvStep := -1 // step at which the first ack/result/error delivery for this id completed
 	ret := ""
 	failed := false
 	for _, e := range o.Events {
 		var s tx
-		var st int
+		var st, eid int
 		var rest string
 		switch {
 		case scan(e, "send id=%d seq=%d body=%s t=%d step=%d", &s.id, &s.seq, &s.body, &s.t, &s.step):
-			sends = append(sends, s)
-		case scan(e, "ackdone step=%d", &st), scan(e, "resultdone step=%d", &st):
-			if recvStep < 0 || st < recvStep {
+			if s.id == id {
+				sends = append(sends, s)
+			}
+		case scan(e, "recv id=%d step=%d", &eid, &st):
+			if eid == id && (recvStep < 0 || st < recvStep) {
 				recvStep = st
 			}
-		case scan(e, "sendfail step=%d", &st):
-			failed = true
-		case scan(e, "ret %s", &rest):
-			ret = e
+		case scan(e, "sendfail id=%d step=%d", &eid, &st):
+			if eid == id {
+				failed = true
+			}
+		case scan(e, "ret id=%d %s", &eid, &rest):
+			if eid == id {
+				ret = e[strings.Index(e, rest):]
+			}
 		}
 	}
-	if ret == "" {
-		if (p.Env == "ack" || p.Env == "ack-batched") && !failed {
-			// acknowledged and never answered: waiting forever is the specified behaviour
-			return kit.OKo("acked-waiting sends=" + fmt.Sprint(len(sends)))
-		}
-		return kit.Bad("no-return", "call never returned (env=%s): blocked %v", p.Env, x.Blocked)
-	}
+	// What was put on the wire is judged for every execution, also for a call that is still waiting at the end.
 	for i, s := range sends {
-		if s.id != sends[0].id || s.seq != sends[0].seq || s.body != sends[0].body {
-			return kit.Bad("identity-changed", "transmission %d differs from the first: %+v vs %+v", i, s, sends[0])
+		if s.seq != sends[0].seq || s.body != sends[0].body {
+			return kit.Bad("identity-changed", "transmission %d differs from the first: %+v vs %+v", i, s, sends[0]), ""
 		}
-		if s.t != i*int(interval/time.Millisecond) {
-			return kit.Bad("not-every-interval", "transmission %d happened at virtual t=%dms, expected %dms", i, s.t, i*int(interval/time.Millisecond))
+		if p.calls() == 1 {
+			if s.t != i*interval {
+				return kit.Bad("not-every-interval", "transmission %d happened at virtual t=%dms, expected %dms", i, s.t, i*interval), ""
+			}
+		} else if i > 0 && s.t-sends[i-1].t < interval {
+			// several calls: another call's early timer may move the clock between this call's send and the arming of
+			// its timer, so only "never earlier than one interval after the previous transmission" is exact
+			return kit.Bad("not-every-interval", "call %d: transmission %d at virtual t=%dms, only %dms after the previous one", id, i, s.t, s.t-sends[i-1].t), ""
 		}
 	}
 	if len(sends) > 1+p.MaxRetries {
-		return kit.Bad("too-many-transmissions", "%d transmissions with MaxRetries=%d", len(sends), p.MaxRetries)
+		return kit.Bad("too-many-transmissions", "call %d: %d transmissions with MaxRetries=%d", id, len(sends), p.MaxRetries), ""
 	}
 	if recvStep >= 0 {
 		// A re-send is forbidden when the ack/result delivery had completed before the timer that
@@ -150,38 +241,59 @@ func check(p params, o *sx.Obs, x *vsched.Sched) kit.Result {
 			if i == 0 {
 				continue
 			}
+			// the timer firing that triggered this re-send: the first one after the previous transmission (with one call
+			// there is exactly one; with several calls an earlier firing of another call's timer makes the judgement lenient, never wrong)
 			fire := -1
 			for _, f := range x.TimerFires {
-				if f.Step <= s.step {
+				if f.Step > sends[i-1].step && f.Step <= s.step {
 					fire = f.Step
+					break
 				}
 			}
 			if fire > recvStep {
-				return kit.Bad("resend-after-ack-or-result", "re-send #%d at step %d was triggered by a timer that fired at step %d, after the ack/result delivery completed at step %d", i, s.step, fire, recvStep)
+				return kit.Bad("resend-after-ack-or-result", "call %d: re-send #%d at step %d was triggered by a timer that fired at step %d, after the ack/result delivery completed at step %d", id, i, s.step, fire, recvStep), ""
 			}
 		}
 	}
-	if p.Env == "none" && !failed {
-		if len(sends) != 1+p.MaxRetries {
-			return kit.Bad("wrong-retry-count", "no ack: expected %d transmissions before giving up, saw %d", 1+p.MaxRetries, len(sends))
+	answered := id == firstID && (p.Env == "result" || p.Env == "ack+result" || p.Env == "error" || p.Env == "ack+error")
+	acked := p.Env == "ack-both" || id == firstID && strings.HasPrefix(p.Env, "ack")
+	if ret == "" {
+		if acked && !answered && !failed {
+			// acknowledged and never answered: waiting forever is the specified behaviour
+			return kit.Result{}, fmt.Sprintf("acked-waiting sends=%d", len(sends))
 		}
-		if ret != fmt.Sprintf("ret retrylimit retries=%d", p.MaxRetries) {
-			return kit.Bad("no-retry-limit-error", "no ack after %d retries: Do returned %q", p.MaxRetries, ret)
+		return kit.Bad("no-return", "call %d never returned (env=%s): blocked %v", id, p.Env, x.Blocked), ""
+	}
+	if !acked && !answered && !failed {
+		if len(sends) != 1+p.MaxRetries {
+			return kit.Bad("wrong-retry-count", "call %d, no ack: expected %d transmissions before giving up, saw %d", id, 1+p.MaxRetries, len(sends)), ""
+		}
+		if ret != fmt.Sprintf("retrylimit retries=%d", p.MaxRetries) {
+			return kit.Bad("no-retry-limit-error", "call %d, no ack after %d retries: Do returned %q", id, p.MaxRetries, ret), ""
 		}
 	}
-	return kit.OKo(fmt.Sprintf("sends=%d %s", len(sends), ret))
+	return kit.Result{}, fmt.Sprintf("sends=%d ret %s", len(sends), ret)
 }
 
 func main() {
 	kit.Main("C25", "model_checking", func(c *kit.Ctx) {
 		var scs []params
 		for _, m := range []int{1, 2, 3} {
+			ivl := 0
+			if m == 2 {
+				ivl = 2500 // a second configured interval
+			}
 			for _, env := range []string{"none", "ack", "ack-batched", "result", "ack+result"} {
 				for _, sf := range []bool{false, true} {
-					scs = append(scs, params{m, env, sf})
+					scs = append(scs, params{MaxRetries: m, Env: env, SendFail: sf, IntervalMS: ivl})
 				}
 			}
+			for _, env := range []string{"ack-dup", "error", "ack+error"} {
+				scs = append(scs, params{MaxRetries: m, Env: env, IntervalMS: ivl})
+			}
 		}
+		// two concurrent invocations acknowledged by one msgs_ack
+		scs = append(scs, params{MaxRetries: 1, Env: "ack-both", Calls: 2}, params{MaxRetries: 2, Env: "ack-both", Calls: 2}, params{MaxRetries: 2, Env: "none", Calls: 2})
 		bound := 2
 		if c.Thorough() {
 			bound = 3
@@ -193,10 +305,12 @@ func main() {
 			sx.Explore(c, mk(scs[0]), 0, 0, 1)
 			return
 		}
-		c.Rule("real rpc.Engine (instrumented), one Do with MaxRetries 1..3 on the virtual clock x environment {nothing, ack, batched ack listing unknown ids around ours, result, ack+result} x "+
-			"{reliable send, each transmission may fail}; every schedule with <= %d deviations (preemption, timer firing while a thread can run, failed "+
-			"transmission); oracle: all transmissions carry the same id/seqno/body, happen at multiples of the retry interval, number <= 1+MaxRetries, no "+
-			"re-send triggered by a timer that fired after the ack/result delivery had completed, no ack => exactly MaxRetries re-sends then RetryLimitReachedErr.", bound)
+		c.Rule("real rpc.Engine (instrumented), one Do with MaxRetries 1..3 (retry interval 1 s, 2.5 s for MaxRetries 2) on the virtual clock x environment {nothing, ack, batched ack listing unknown ids around ours, "+
+			"result, ack+result} x {reliable send, each transmission may fail}, plus {the same id acknowledged again (twice in one msgs_ack and in a second one), RPC-error answer (NotifyError), ack+error} with reliable sends, "+
+			"plus two concurrent Do calls on one engine {both acknowledged by one msgs_ack listing both around an unknown id (MaxRetries 1, 2), neither acknowledged (MaxRetries 2)}; every schedule with <= %d deviations "+
+			"(preemption, timer firing while a thread can run, failed transmission); oracle per call, judged on every execution including those that end with the call still waiting: "+
+			"all transmissions carry the same id/seqno/body, happen at multiples of the retry interval (two calls: never earlier than one interval after the previous one), number <= 1+MaxRetries, no "+
+			"re-send triggered by a timer that fired after the ack/result/error delivery had completed, neither acknowledged nor answered => exactly MaxRetries re-sends then RetryLimitReachedErr.", bound)
 		c.Assume("scheduling points at every sync operation of the instrumented rpc package; virtual time advances only when a timer fires")
 		if c.Fork(len(scs), 16) {
 			return
